@@ -128,6 +128,109 @@ pub fn roundtrip(ctx: &mut Ctx, src: &str, context: &[&str], cell: Option<&str>)
     }
 }
 
+// A binder named `_` whose variable occurs in its scope (possible only in elaborated terms: a
+// function type invented by unification before the definition it describes was checked keeps the
+// binder name `_`, while the occurrences carry the names of the definition's own binders): give
+// the binder the name its occurrences use.
+fn name_used_placeholders(e: &E) -> E {
+    fn occurrence_name(e: &E, idx: usize) -> Option<String> {
+        let mut found = None;
+        fn go(e: &E, idx: usize, found: &mut Option<String>) {
+            if found.is_some() {
+                return;
+            }
+            match e {
+                E::Var(n, i) if *i == idx => *found = Some(n.clone()),
+                E::Hole(_, sh, Some(c)) => {
+                    if idx >= *sh {
+                        go(c, idx - sh, found);
+                    }
+                }
+                E::Hole(..) => {}
+                other => {
+                    let _ = other.map_children(&mut |c, binders| {
+                        go(c, idx + binders, found);
+                        c.clone()
+                    });
+                }
+            }
+        }
+        go(e, idx, &mut found);
+        found
+    }
+    match e {
+        E::Pi(n, im, d, b) | E::Lam(n, im, d, b) if n == "_" => {
+            let name = occurrence_name(b, 0).unwrap_or_else(|| "_".to_owned());
+            let (d2, b2) = (Box::new(name_used_placeholders(d)), Box::new(name_used_placeholders(b)));
+            if matches!(e, E::Pi(..)) { E::Pi(name, *im, d2, b2) } else { E::Lam(name, *im, d2, b2) }
+        }
+        E::Hole(id, sh, c) => E::Hole(*id, *sh, c.as_ref().map(|c| Box::new(name_used_placeholders(c)))),
+        other => other.map_children(&mut |c, _| name_used_placeholders(c)),
+    }
+}
+
+// What `gram check` displays: the elaborated term and its type, as printed by gram, must read
+// back (in the empty context) as the term that was checked, solved holes replaced by their
+// solutions and unsolved ones by `_`.
+pub fn elaborated_roundtrip(ctx: &mut Ctx, src: &str) {
+    use crate::pipe::{Front, Opts, observe};
+    ctx.eval();
+    let obs = observe(src, &[], &Opts::check_only());
+    if !matches!(obs.front, Front::Accepted) {
+        ctx.count("elaborated:source-not-accepted");
+        return;
+    }
+    for (what, term, text) in [("term", &obs.elab, &obs.elab_text), ("type", &obs.ty, &obs.ty_text)] {
+        let Some(e) = term else { continue };
+        let want = e.zonk();
+        ctx.nontrivial(hash_str(text));
+        let back = guard(|| {
+            let toks = match tokenize(None, text) {
+                Ok(t) => t,
+                Err(es) => return Err(format!("does not tokenize: {}", clip(&es[0].message, 200))),
+            };
+            match parse(None, text, &toks[..], &[]) {
+                Ok(t2) => Ok(mirror(&t2)),
+                Err(es) => Err(format!("does not parse: {}", clip(&es[0].message, 300))),
+            }
+        });
+        let problem = match back {
+            Err(p) => Some((format!("elaborated-reparse-panic@{}", panic_site(&p)), p)),
+            Ok(Err(m)) => Some(("elaborated-text-fails-to-read-back".to_owned(), m)),
+            Ok(Ok(e2)) => {
+                let (a, b) = (norm(&want), norm(&e2));
+                if a == b { None } else { Some(("elaborated-text-reads-back-differently".to_owned(), format!("reads back as {} instead of {}", clip(&b.show(), 400), clip(&a.show(), 400)))) }
+            }
+        };
+        match problem {
+            None => ctx.count(&format!("elaborated-{what}-roundtrips")),
+            Some((key, m)) => {
+                // Information only. The property quantifies over terms obtained by parsing; the
+                // output of elaboration is outside it and does not read back on the unchanged tree
+                // for two inherent reasons: a function type invented by unification keeps the
+                // binder name `_` while its occurrences carry names, and copying types into
+                // terms puts a binder under a binder of the same name (which the parser forbids).
+                let class = if key.contains("panic") {
+                    "panic"
+                } else if name_used_placeholders(&want) != want {
+                    "placeholder-binder-used-by-name"
+                } else if m.contains("already exists") {
+                    "copy-created-shadowing"
+                } else if has_implicit_nondep_pi(&want) {
+                    "implicit-non-dependent-pi"
+                } else {
+                    "other"
+                };
+                ctx.count(&format!("elaborated-{what}-does-not-read-back:{class}"));
+                if class == "other" || class == "panic" {
+                    ctx.sample(Json::obj().set("elaborated_display_other", Json::s(&clip(&m, 300))).set("printed", Json::s(&clip(text, 600))));
+                }
+                return;
+            }
+        }
+    }
+}
+
 // ---------------------------------------------------------------------------------------------
 // (parent former, operand position, child former) matrix at source level.
 
@@ -253,8 +356,8 @@ impl Prop for C16P {
     fn plan(&self, tier: Tier, _seed: u64) -> Plan {
         let cells = (parents().len() * children().len()) as u64;
         let mut p = Plan::new(
-            vec![sec("pinned", 160), sec_ex("former-position-former-matrix", cells), sec("random-programs", tier.pick(25_000, 500_000))],
-            "every one of 41 (parent former, operand position) slots filled with every one of 43 child formers (3 fillers each; implicit and placeholder binders, used and unused parameters, holes, groups of 1-2 definitions), then random well-scoped programs over the full syntax and the corpus; each is parsed, printed with gram's Display and read back in the same scope; non-trivial = distinct printed text",
+            vec![sec("pinned", 160), sec_ex("former-position-former-matrix", cells), sec("random-programs", tier.pick(25_000, 500_000)), sec("elaborated-terms", tier.pick(12_000, 240_000))],
+            "every one of 41 (parent former, operand position) slots filled with every one of 43 child formers (3 fillers each; implicit and placeholder binders, used and unused parameters, holes, groups of 1-2 definitions), then random well-scoped programs, and the elaborated term and type of generated typed programs (omitted annotations filled in by solved holes) as `gram check` displays them, over the full syntax and the corpus; each is parsed, printed with gram's Display and read back in the same scope; non-trivial = distinct printed text",
         );
         p.assumptions = vec![
             "holes are compared by position only (an omitted annotation prints as `_`), names of unused function-type parameters are ignored, everything else must be identical including indices, implicit flags, literals and grouping".into(),
@@ -295,6 +398,13 @@ impl Prop for C16P {
                 let style = Style::varied(&mut r);
                 let src = print(&h, &style, idx).text;
                 roundtrip(ctx, &src, &context, None);
+            }
+            "elaborated-terms" => {
+                let mut r = Rng::for_case(ctx.seed, 3, idx);
+                let mode = if idx % 3 == 0 { crate::gen_prog::Mode::Explicit } else { crate::gen_prog::Mode::Inferred };
+                let p = crate::gen_prog::gen_program(&mut r, mode);
+                let src = print(&p.h, &Style::varied(&mut r), idx).text;
+                elaborated_roundtrip(ctx, &src);
             }
             _ => {}
         }
